@@ -480,23 +480,16 @@ func checkC15(c *Check) {
 			}
 			return false, false
 		})
-		accepting := func(pt Pt) bool {
-			k, ret := rm.F.Exit(pt)
-			if k == ExitFallOff {
-				return true
+		acceptingExpr := func(e ast.Expr) bool {
+			if e == nil {
+				return true // falls off the end, or a value the analysis cannot see
 			}
-			if ret == nil {
-				return false
-			}
-			if len(ret.Results) != 1 {
-				return true
-			}
-			if call, ok := ast.Unparen(ret.Results[0]).(*ast.CallExpr); ok && isAuthz(info, call) {
+			if call, ok := ast.Unparen(e).(*ast.CallExpr); ok && isAuthz(info, call) {
 				return false // the verdict of authzSender itself
 			}
-			return !c15Refusal(c.P, rm.FI, info, ret.Results[0], 0)
+			return !c15Refusal(c.P, rm.FI, info, e, 0)
 		}
-		path, f := rm.F.Reach(Query{From: rm.Entry(), Inclusive: true, Target: accepting, Avoid: isPt(calls), AvoidEdge: w})
+		path, f := rm.ReachBadReturn(rm.Entry(), 0, acceptingExpr, isPt(calls), w)
 		c.Hold("R2b", "state."+m, rm.FI.Decl.Pos(), !f && len(calls) > 0, m+" can accept a message received over a connection without asking authzSender (the check is skipped for everybody): "+rm.F.Describe(path))
 	}
 
@@ -575,14 +568,10 @@ func checkC15(c *Check) {
 						done = append(done, Pt{b, 0})
 					}
 				}
-				notRefusal := func(pt Pt) bool {
-					_, ret := rb.F.Exit(pt)
-					if !rb.F.IsExitPt(pt) {
-						return false
-					}
-					return ret == nil || len(ret.Results) != 1 || !c15Refusal(c.P, rb.FI, info, ret.Results[0], 0)
+				notRefusal := func(e ast.Expr) bool {
+					return e == nil || !c15Refusal(c.P, rb.FI, info, e, 0)
 				}
-				if path, f := rb.F.Reach(Query{From: done, Inclusive: true, Target: notRefusal, AvoidEdge: w2}); f || len(done) == 0 {
+				if path, f := rb.ReachBadReturn(done, 0, notRefusal, nil, w2); f || len(done) == 0 {
 					enumerates = false
 					_ = path
 				}
